@@ -57,6 +57,7 @@ def _worker(args):
             fault_fired=dict(sess.world.fs.stats) if sess.world.fs is not None else {},
             io_ok=sess.io_ok, io_failed=sess.io_failed, raw_calls=sess.raw_calls,
             wall=time.perf_counter() - t0,
+            knobs={k: str(v) for k, v in sess.knobs.items()},
         )
         if own:
             v = own[0]
